@@ -337,11 +337,38 @@ def stdin_bytes(script):
     return "".join(out).encode("utf-8")
 
 
-def run_real(argv, script, python=None, timeout=60):
-    """The same run as a real child process: exit status, stdout, stderr."""
+# process environments of the real child processes (a swarm dimension of the real-process sample):
+# the stdout/stdin encoding a user's locale or PYTHONIOENCODING may impose. Restricted encodings are
+# only used for runs whose argv and answers are pure ASCII (so everything printed is encodable).
+REAL_ENVS = {
+    "utf-8": {"PYTHONIOENCODING": "utf-8", "LANG": "C.UTF-8", "LC_ALL": "C.UTF-8"},
+    "latin-1": {"PYTHONIOENCODING": "latin-1", "LANG": "C.UTF-8", "LC_ALL": "C.UTF-8"},
+    "ascii": {"PYTHONIOENCODING": "ascii", "LANG": "C", "LC_ALL": "C"},
+    "c-locale": {"LANG": "C", "LC_ALL": "C", "PYTHONUTF8": "0", "PYTHONCOERCECLOCALE": "0"},
+    "cp1252-replace": {"PYTHONIOENCODING": "cp1252:replace", "LANG": "C.UTF-8", "LC_ALL": "C.UTF-8"},
+}
+REAL_ENV_ORDER = ["utf-8", "latin-1", "utf-8", "ascii", "utf-8", "c-locale", "utf-8", "cp1252-replace"]
+
+
+def pure_ascii(argv, script):
+    try:
+        for a in argv:
+            a.encode("ascii")
+        for _, t in script:
+            t.encode("ascii")
+        return True
+    except UnicodeError:
+        return False
+
+
+def run_real(argv, script, python=None, timeout=60, envname="utf-8"):
+    """The same run as a real child process: exit status, stdout, stderr. The environment is built
+    from scratch (no PYTHONUNBUFFERED etc. inherited): stdout is a block-buffered pipe, as for a user
+    who redirects the output."""
     repo = core.repo_dir()
-    env = {"PYTHONPATH": repo, "PYTHONHASHSEED": "0", "PYTHONIOENCODING": "utf-8", "PYTHONDONTWRITEBYTECODE": "1",
-           "PATH": os.environ.get("PATH", "/usr/bin:/bin"), "LANG": "C.UTF-8", "LC_ALL": "C.UTF-8", "HOME": "/nonexistent"}
+    env = {"PYTHONPATH": repo, "PYTHONHASHSEED": "0", "PYTHONDONTWRITEBYTECODE": "1",
+           "PATH": os.environ.get("PATH", "/usr/bin:/bin"), "HOME": "/nonexistent"}
+    env.update(REAL_ENVS[envname])
     p = subprocess.run([python or sys.executable, "-m", "cvss.cvss_calculator"] + list(argv), input=stdin_bytes(script),
                        stdout=subprocess.PIPE, stderr=subprocess.PIPE, cwd=repo, env=env, timeout=timeout)
     return {"exit": p.returncode, "stdout": p.stdout.decode("utf-8", "replace"), "stderr": p.stderr.decode("utf-8", "replace")}
@@ -421,7 +448,7 @@ class CliEngine(object):
         out["counters"]["fault.eof_midline" if midline else "fault.eof"] = 1
         # every 7th case also as a real child process
         if index % 7 == 0:
-            self.compare_real(out, item, res)
+            self.compare_real(out, item, res, REAL_ENV_ORDER[(index // 7) % len(REAL_ENV_ORDER)])
         return out
 
     def run_one(self, index):
@@ -442,16 +469,23 @@ class CliEngine(object):
                 out["counters"][k] = out["counters"].get(k, 0) + n
         out["counters"]["vclass." + (case["vclass"] or "interactive").split(".")[0]] = 1
         if self.real_every and index % self.real_every == 0:
-            self.compare_real(out, item, res)
+            out["trace"]["real"] = True
+            self.compare_real(out, item, res, REAL_ENV_ORDER[(index // self.real_every) % len(REAL_ENV_ORDER)])
         return out
 
-    def compare_real(self, out, item, res):
+    def compare_real(self, out, item, res, envname=None):
+        if envname is None:
+            envname = out["trace"].get("real_env") or "utf-8"
+        if envname != "utf-8" and not pure_ascii(item["argv"], item["script"]):
+            envname = "utf-8"
+        out["trace"]["real_env"] = envname
         try:
-            real = run_real(item["argv"], item["script"])
+            real = run_real(item["argv"], item["script"], envname=envname)
         except subprocess.TimeoutExpired:
             out["violations"].append(violation(PROP, "a", "real-process-hangs", "real child process did not finish in 60 s [argv=%r]" % (item["argv"],)))
             return
         out["counters"]["real_process_runs"] = 1
+        out["counters"]["real_process_runs.env." + envname] = 1
         sim_exit = res["exit"]
         same = (real["exit"] == sim_exit and real["stdout"] == res["stdout"] and bool(real["stderr"]) == bool(res["stderr"]))
         if same:
@@ -465,10 +499,10 @@ class CliEngine(object):
             vio, _ = judge(item["argv"], res2, self.ctors, None)
             for v in vio:
                 v["sig"] += ":real-process"
-                v["message"] += " (observed on the real child process)"
+                v["message"] += " (observed on the real child process, environment %r: %s)" % (envname, REAL_ENVS[envname])
             if not vio:
-                raise core.HarnessError("stub and real process disagree but neither violates the property: argv=%r sim=(%r,%r,%r) real=(%r,%r,%r)" %
-                                        (item["argv"], sim_exit, res["stdout"][-200:], res["stderr"][-200:], real["exit"], real["stdout"][-200:], real["stderr"][-200:]))
+                raise core.HarnessError("stub and real process (env %s) disagree but neither violates the property: argv=%r sim=(%r,%r,%r) real=(%r,%r,%r)" %
+                                        (envname, item["argv"], sim_exit, res["stdout"][-200:], res["stderr"][-200:], real["exit"], real["stdout"][-200:], real["stderr"][-200:]))
             out["violations"].extend(vio)
 
     def execute(self, trace, shrinking=False):
